@@ -138,6 +138,56 @@ CLAIMED = {
             "Trusts: Coq kernel; extraction + driver; rt/rt.c; SC interleaving; qsort returns a sorted permutation (Section hypothesis, discharged for "
             "the model's insertion sort); -O0 build.",
             "DESIGN.md 6 C14"),
+    "C01": ("Coq invariant (21 clauses) over a labelled protocol machine of the runtime + trace acceptance: the extracted machine must accept the "
+            "protocol-event sequence of every real execution of the WHOLE runtime under a deterministic scheduler; implementation-side monitor",
+            "Machine-checked theorems over every reachable state of coq/Kernel.v (any number of kernel threads and fibers, any event sequence the "
+            "protocol enables): the current fiber of a thread is live exactly there and no fiber is current on two threads; a context switch never "
+            "targets a fiber whose suspension has not completed (a fiber woken before its switch is SAVING and cannot be handed out); a fiber is "
+            "reclaimed only when DONE, saved, unqueued and unreferenced, once, and never touched afterwards; plus the C02 runtime facts. The machine's "
+            "enabling conditions are only what the code enforces (control flow, container semantics); the safety facts are theorems. Tie: all of "
+            "src/*.c (real assembly switch, deques, managers, mutex/cond/semaphore/join) runs with its kernel threads under the baton scheduler; the "
+            "guarded event hooks give create/schedule/next/steal/switch/resumed/destroy + state-word and slot accesses; every event must be enabled in "
+            "the extracted machine (a rejected event is a correspondence failure) and a direct C01/C02 monitor judges the same runs.",
+            "Trace inclusion is checked on the explored runs (seeded random programs x kernel-thread schedules + corpus), not proved. Abstractions "
+            "(all over-approximate what wakers may do): one bag for all run queues; wait objects as availability of entries (P1 at the SAVING mark, "
+            "P2/P3 at the start of the successor's maintenance); an entry is obtained by one waker (C13/C15/C03/C18). fd and sleep waits are not "
+            "exercised by the T2 programs. Trusts: Coq kernel, extraction + driver, rt/rt.c + rt/t2.c, the label decoder in C01.py, the /repo hooks.",
+            "DESIGN.md 6 C01, 12.1, Appendix A"),
+    "C03": ("Coq invariant + ghost ownership machine (with erasure theorem) over the T1K stack-machine model of fiber_mutex.c and fiber_manager.c's "
+            "wait/wake code; lock-step trace correspondence on the T1 machine",
+            "Machine-checked theorems over every reachable state (any number of fibers, any lock/trylock/unlock programs, any schedule, incl. an "
+            "unlock landing between a contender's decrement and each step of its enqueue and before/after its switch): at most one owner and a "
+            "trylock CAS succeeds only with no owner and no announced waiter; counter = 1 - owners - announced; the value read back in the critical "
+            "section is the owner's own write; a contended unlock pops exactly one waiter and wakes exactly that fiber, which owns the mutex from the "
+            "pop on; announced waiter and no owner implies an unlocker in its pop loop; at quiescence nobody sleeps on a free mutex. Tied to /repo on "
+            "every run by per-access trace comparison of the instrumented fiber_mutex.c + fiber_manager.c + fiber.c with the extracted model.",
+            "Trusts: Coq kernel; extraction + driver; rt/rt.c, rt/t1.c (context switch, run queues, event layer replaced: given C01 and C02); SC "
+            "interleaving; -O0 build; programs unlock only what they hold.",
+            "DESIGN.md 6 C03, 12.1"),
+    "C05": ("Coq invariants over per-thread phases of the T1K model with client Cond.v (user mutex, internal mutex, waiter count, waiter list) + ghost "
+            "counters with erasure; lock-step trace correspondence on the T1 machine",
+            "Machine-checked theorems over every reachable state (any number of waiters, signallers, broadcasters, with or without the user mutex, any "
+            "schedule): waiter_count = registered - claimed - transient; released <= claimed and every release stems from one claim; a signal that "
+            "sees >= 1 registered waiter releases exactly one before it returns and a broadcast exactly the number registered at its exchange; when "
+            "the user mutex is released on behalf of a waiter the waiter is already registered (atomic unlock-and-wait); cond_wait returns only as the "
+            "unique holder of the user mutex; one consumer per waiter list. Tied to /repo by per-access lock-step of fiber_cond.c + fiber_mutex.c + "
+            "fiber_manager.c + fiber.c.",
+            "Trusts: Coq kernel; extraction + driver; rt/rt.c, rt/t1.c (given C01 and C02); SC interleaving; -O0 build. The yield inside the deferred "
+            "unlock is modelled client-side (Cond.kstepC) because T1K models it as the sleeper's own yield.",
+            "DESIGN.md 6 C05, 12.1"),
+    "C11": ("Coq invariants + ghost logs over the T1K-based channel machine (signal, unbounded MPSC/SPSC channels, bounded channel) and the multi-channel "
+            "client; abstract attempt-level protocol for the multi-channel wake-up argument; lock-step trace correspondence on the T1 machine",
+            "Machine-checked theorems over every reachable state: signal — the word is NO_WAITER/RAISED/the single waiter, a raise racing a wait is seen "
+            "or remembered, the raiser schedules the waiter only after its maintenance set the marker; unbounded and bounded channels — received "
+            "sequence is a prefix of the send order (tail-exchange / high-CAS order), per-sender order, capacity and no overwrite, a receiver on its "
+            "way to sleep with a message linked has a committed raiser; multi channel (the repaired two-list code) — capacity and exactly-once in order "
+            "relative to mutual exclusion of the channel lock, and no stranded sender/receiver proved on the abstract attempt-level protocol for any "
+            "number of senders/receivers and any capacity. The pre-repair one-list protocol is kept as a refuted regression witness. Tied to /repo by "
+            "per-access lock-step of fiber_signal.h, fiber_channel.h, fiber_multi_channel.h + fiber_manager.c on five harness/model pairs.",
+            "Partial: the refinement from the access-level multi-channel model to the abstract protocol (needs C03 for this client) is not proved; the "
+            "single-producer channel is lock-step + monitor only. Trusts: Coq kernel; extraction + driver; rt/rt.c, rt/t1.c (given C01, C02); SC "
+            "interleaving; single-waiter discipline of signals as a hypothesis on programs.",
+            "DESIGN.md 6 C11, 12.3"),
 }
 
 NOT_YET = "model and proof not built yet in this development (see DESIGN.md 6 for the plan); not claimed until a check exists"
